@@ -1,6 +1,7 @@
 import Pyunicorn.Lemmas.CrossNsiWhole
 import Pyunicorn.Lemmas.CrossR4
 import Pyunicorn.Lemmas.CrossBetw
+import Pyunicorn.Lemmas.NetBetwKernel
 import Pyunicorn.Lemmas.CrossCCN
 import Pyunicorn.Model.CrossISRN
 import Mathlib.Algebra.Order.BigOperators.Group.List
@@ -1829,11 +1830,14 @@ w_t w_s σ_ts(v)/σ_ts` (`σ` = weighted number of shortest paths; unit weights:
 the pair), i.e. `nsiCrossBetweenness n A w L1 L2 = crossBetweennessDef n A w L1 L2`.
 Proved here for every network, weight vector and pair of lists: the delegation chain (mask,
 weights, target order), the loop over the targets and the final division turn per-target sweep
-results that equal the definition's inner sum into the published double sum.  Missing: the
+results that equal the definition's inner sum into the published double sum.  Missing here: the
 hypothesis `h` itself (the kernel's forward and backward sweeps for one target compute
-`contribDef`) — C03's open item (`nsiBetweenness_eq_def_partial`); both sides are evaluated in exact
-rational arithmetic by the driver on every case of the run (`cross_betweenness` /
-`cross_betweenness_def` must coincide) and compared with the implementation. -/
+`contribDef`).  **Round 5b: the full statement is now proved** as `nsiCrossBetweenness_eq_def`
+(section "Round 5b" below; `h` is C03's theorem `NetBetw.sweepDiff_eq_contribDef` for every
+undirected network, positive weights and targets `< N`); this theorem stays as the assembly step
+(it needs no hypothesis on the network).  Both sides are still evaluated in exact rational
+arithmetic by the driver on a sample of the cases of every run (`cross_betweenness` /
+`cross_betweenness_def` must coincide) — a correspondence, no longer a hypothesis. -/
 theorem nsiCrossBetweenness_eq_def_partial (n : Nat) (A : Adj) (w : Nat → Rat) (L1 L2 : List Nat)
     (h : ∀ t, t ∈ L2 → ∀ v, v < n →
       sweepDiff n A w (srcMask n L1) t v
@@ -3158,5 +3162,163 @@ theorem isrn_as_modelled :
   decide +kernel
 
 end ISRN
+
+/-! ## Round 5b
+
+C03 (round 5) proved its loop-level model of the kernel `_nsi_betweenness` equal to the
+pair-dependency definition for every undirected network (`NetBetw.sweepDiff_eq_contribDef`,
+`NetBetw.nsiBetweenness_eq_def_full`, Lemmas/NetBetwKernel.lean).  The per-target hypothesis of
+`nsiCrossBetweenness_eq_def_partial` is therefore a theorem: the three betweenness delegates equal
+the published double sum on the two groups under the three hypotheses the real code enforces
+(symmetric adjacency — the assertion of `Network._nsi_betweenness`, `betwAssert_iff`; positive node
+weights — the division `betw_w / w`; targets `< N` — numpy indexing). -/
+
+section BetweennessFull
+open Pyunicorn.NetBetw
+
+/-- **`nsi_cross_betweenness(L1, L2)` is the published double sum — full strength.**  For every
+undirected network (symmetric `A`), positive node weights, every source list `L1` and every target
+list `L2` of valid node numbers (any order, repetitions allowed, disjoint or not):
+`nsi_cross_betweenness(L1, L2)[v] = (1/w_v) Σ_{t ∈ L2} Σ_{s ∈ L1, s ≠ v ≠ t} w_t w_s σ_ts(v)/σ_ts`
+(`σ` = weighted number of shortest paths over the BFS distances).  The hypothesis of
+`nsiCrossBetweenness_eq_def_partial` is discharged by C03's kernel theorem
+`NetBetw.sweepDiff_eq_contribDef`. -/
+theorem nsiCrossBetweenness_eq_def (n : Nat) (A : Adj) (hA : Symm A) (w : Nat → Rat)
+    (hw : ∀ v, v < n → 0 < w v) (L1 L2 : List Nat) (h2 : ∀ t, t ∈ L2 → t < n) :
+    nsiCrossBetweenness n A w L1 L2 = crossBetweennessDef n A w L1 L2 :=
+  nsiCrossBetweenness_eq_def_partial n A w L1 L2 fun t ht v hv =>
+    sweepDiff_eq_contribDef n A hA w hw (srcMask n L1) t (h2 t ht) v hv
+
+/-- **`cross_betweenness(L1, L2)` is the definition with unit weights** (`nsi=False` replaces the
+node weights by ones, so no hypothesis on the network's weights is left) -/
+theorem crossBetweenness_eq_def (n : Nat) (A : Adj) (hA : Symm A) (L1 L2 : List Nat)
+    (h2 : ∀ t, t ∈ L2 → t < n) :
+    crossBetweenness n A L1 L2 = crossBetweennessDef n A (fun _ => 1) L1 L2 :=
+  nsiCrossBetweenness_eq_def n A hA (fun _ => 1) (fun _ _ => by decide) L1 L2 h2
+
+/-- **`internal_betweenness(L)`**: sources and targets both `L` -/
+theorem internalBetweenness_eq_def (n : Nat) (A : Adj) (hA : Symm A) (L : List Nat)
+    (h : ∀ t, t ∈ L → t < n) :
+    internalBetweenness n A L = crossBetweennessDef n A (fun _ => 1) L L :=
+  crossBetweenness_eq_def n A hA L L h
+
+/-- C11's model of `is_source[sources] = 1` (a fold of stores) and C03's (`srcMaskOf`, a membership
+map) are the same mask -/
+theorem srcMask_eq_srcMaskOf (n : Nat) (L : List Nat) : srcMask n L = srcMaskOf n (some L) := by
+  rw [srcMask_eq]
+  unfold srcMaskOf
+  apply List.map_congr_left
+  intro v _
+  simp
+
+/-- **the delegates are C03's model of the `Network` methods they call**: `cross_betweenness(L1, L2)`
+is `Network.interregional_betweenness(sources=L1, targets=L2)` and `nsi_cross_betweenness(L1, L2)` is
+`Network.nsi_betweenness(sources=L1, targets=L2)` (default `nsi=True`) as modelled by C03
+(`NetBetw.interregionalBetweenness`, `NetBetw.apiBetweenness`) — the two independently written
+models of the delegation chain coincide, for every network and every pair of lists. -/
+theorem betweenness_delegates_eq_api (n : Nat) (A : Adj) (w : Nat → Rat) (L1 L2 : List Nat) :
+    crossBetweenness n A L1 L2 = interregionalBetweenness n A w (some L1) (some L2)
+      ∧ nsiCrossBetweenness n A w L1 L2 = apiBetweenness n A w (some L1) (some L2) true := by
+  unfold crossBetweenness nsiCrossBetweenness interregionalBetweenness apiBetweenness
+  rw [srcMask_eq_srcMaskOf]
+  simp
+
+/-- **`nsi_cross_betweenness` against the enumeration of shortest paths**: entry `v` is
+`(1/w_v) Σ_{t ∈ L2, t ≠ v} w_t Σ_{s ∈ L1, s ≠ v} w_s · (Σ_{p shortest t–s path, v ∈ p} Π_{x ∈ p} w_x)
+/ (Σ_{p shortest t–s path} Π_{x ∈ p} w_x)`, both sums over the explicitly enumerated shortest paths
+(no recursion on the right-hand side) — what the oracle of the harness computes. -/
+theorem nsiCrossBetweenness_eq_enumeration (n : Nat) (A : Adj) (hA : Symm A) (w : Nat → Rat)
+    (hw : ∀ v, v < n → 0 < w v) (L1 L2 : List Nat) (h2 : ∀ t, t ∈ L2 → t < n)
+    (v : Nat) (hv : v < n) :
+    (nsiCrossBetweenness n A w L1 L2).getD v 0
+      = nsiBetweennessEnum n A w (Pyunicorn.Net.dist n A) (srcMask n L1) L2 v := by
+  rw [nsiCrossBetweenness_eq_def n A hA w hw L1 L2 h2]
+  exact nsiBetweennessDef_getD_enum n A w (Pyunicorn.Net.dist n A) (srcMask n L1) L2 v hv
+
+/-- **`cross_betweenness(L1, L2)[v]` counts shortest paths between the groups through `v`**:
+`Σ_{t ∈ L2, t ≠ v} Σ_{s ∈ L1, s ≠ v} #(shortest t–s paths through v) / #(shortest t–s paths)`
+over the enumerated shortest paths (pairs without a connecting path contribute nothing), for every
+undirected network — the sub-block definition of the property, at full strength. -/
+theorem crossBetweenness_eq_count (n : Nat) (A : Adj) (hA : Symm A) (L1 L2 : List Nat)
+    (h2 : ∀ t, t ∈ L2 → t < n) (v : Nat) (hv : v < n) :
+    (crossBetweenness n A L1 L2).getD v 0
+      = interregionalCount n A (Pyunicorn.Net.dist n A) L1 L2 v := by
+  have h := nsiCrossBetweenness_eq_enumeration n A hA (fun _ => 1) (fun _ _ => by decide)
+    L1 L2 h2 v hv
+  rw [srcMask_eq_srcMaskOf, enum_unit] at h
+  rw [← nsiCrossBetweenness_unit_weights]
+  exact h
+
+theorem internalBetweenness_eq_count (n : Nat) (A : Adj) (hA : Symm A) (L : List Nat)
+    (h : ∀ t, t ∈ L → t < n) (v : Nat) (hv : v < n) :
+    (internalBetweenness n A L).getD v 0
+      = interregionalCount n A (Pyunicorn.Net.dist n A) L L v :=
+  crossBetweenness_eq_count n A hA L L h v hv
+
+/-- **whole-network limit by definition**: with `L` any ordering of all nodes,
+`cross_betweenness(L, L)[v] = internal_betweenness(L)[v]` is the count over *all* ordered pairs of
+nodes (on an undirected network twice the shortest-path betweenness), and
+`nsi_cross_betweenness(L, L)` is the n.s.i. betweenness of the whole network by definition. -/
+theorem whole_betweenness_eq_count (n : Nat) (A : Adj) (hA : Symm A) (L : List Nat)
+    (h : L.Perm (List.range n)) (v : Nat) (hv : v < n) :
+    (crossBetweenness n A L L).getD v 0
+      = interregionalCount n A (Pyunicorn.Net.dist n A) (List.range n) (List.range n) v := by
+  rw [crossBetweenness_perm n A h h]
+  exact crossBetweenness_eq_count n A hA _ _ (fun t ht => List.mem_range.mp ht) v hv
+
+theorem whole_nsi_betweenness_eq_def (n : Nat) (A : Adj) (hA : Symm A) (w : Nat → Rat)
+    (hw : ∀ v, v < n → 0 < w v) (L : List Nat) (h : L.Perm (List.range n)) :
+    nsiCrossBetweenness n A w L L
+      = nsiBetweennessDef n A w (Pyunicorn.Net.dist n A) (List.replicate n true) (List.range n) := by
+  rw [whole_nsi_betweenness n A w L h, ← srcMaskAll_all]
+  exact nsiCrossBetweenness_eq_def n A hA w hw _ _ (fun t ht => List.mem_range.mp ht)
+
+/-- **the three delegates on an undirected loop-free network, guard included**: the assertion of
+`Network._nsi_betweenness` passes (no `AssertionError`) *and* the results are the published double
+sums — the hypothesis "symmetric adjacency" is the one the guard enforces (`betwAssert_iff`: on a
+directed network with a link the methods raise instead). -/
+theorem betweenness_delegates_full (n : Nat) (A : Adj) (hA : Symm A) (hloop : ∀ a, A a a = false)
+    (w : Nat → Rat) (hw : ∀ v, v < n → 0 < w v) (L1 L2 : List Nat)
+    (h1 : ∀ t, t ∈ L1 → t < n) (h2 : ∀ t, t ∈ L2 → t < n) :
+    betwAssertHolds false n A = true
+      ∧ crossBetweenness n A L1 L2 = crossBetweennessDef n A (fun _ => 1) L1 L2
+      ∧ internalBetweenness n A L1 = crossBetweennessDef n A (fun _ => 1) L1 L1
+      ∧ nsiCrossBetweenness n A w L1 L2 = crossBetweennessDef n A w L1 L2 :=
+  ⟨(betwAssert_iff false A (fun _ => hA) hloop n).mpr (Or.inl rfl),
+   crossBetweenness_eq_def n A hA L1 L2 h2,
+   internalBetweenness_eq_def n A hA L1 h1,
+   nsiCrossBetweenness_eq_def n A hA w hw L1 L2 h2⟩
+
+/-! non-vacuity: the path 0–1–2–3 with node weights `1, 2, 3, 4`, groups `[3, 0]` and `[2, 0]`
+(overlapping, shuffled) — the hypotheses hold and both sides are non-zero -/
+
+private def pathAdj : Adj := fun a b => a + 1 == b || b + 1 == a
+private def pathW : Nat → Rat := fun i => (i : Rat) + 1
+
+private theorem pathAdj_symm : Symm pathAdj := fun _ _ => Bool.or_comm _ _
+private theorem pathW_pos (n : Nat) : ∀ v, v < n → 0 < pathW v := by
+  intro v _
+  have : (0 : Rat) ≤ (v : Rat) := Nat.cast_nonneg v
+  unfold pathW
+  linarith
+
+example : nsiCrossBetweenness 4 pathAdj pathW [3, 0] [2, 0]
+    = crossBetweennessDef 4 pathAdj pathW [3, 0] [2, 0] :=
+  nsiCrossBetweenness_eq_def 4 pathAdj pathAdj_symm pathW (pathW_pos 4) _ _ (by decide)
+example : (nsiCrossBetweenness 4 pathAdj pathW [3, 0] [2, 0]).getD 1 0 ≠ 0 := by decide +kernel
+example : (crossBetweenness 4 pathAdj [3, 0] [2, 0]).getD 1 0
+    = interregionalCount 4 pathAdj (Pyunicorn.Net.dist 4 pathAdj) [3, 0] [2, 0] 1 :=
+  crossBetweenness_eq_count 4 pathAdj pathAdj_symm _ _ (by decide) 1 (by decide)
+example : interregionalCount 4 pathAdj (Pyunicorn.Net.dist 4 pathAdj) [3, 0] [2, 0] 1 = 2 := by
+  decide +kernel
+example : crossBetweenness 4 pathAdj [3, 0] [2, 0] = [0, 2, 1, 0] := by decide +kernel
+example : betwAssertHolds false 4 pathAdj = true
+    ∧ nsiCrossBetweenness 4 pathAdj pathW [3, 0] [2, 0]
+      = crossBetweennessDef 4 pathAdj pathW [3, 0] [2, 0] :=
+  let h := betweenness_delegates_full 4 pathAdj pathAdj_symm (by intro a; simp [pathAdj]) pathW
+    (pathW_pos 4) [3, 0] [2, 0] (by decide) (by decide)
+  ⟨h.1, h.2.2.2⟩
+
+end BetweennessFull
 
 end Pyunicorn.Cross
